@@ -425,6 +425,11 @@ static void CodeSETEQU(Word MayChange) {
                 }
                 PopLocHandle();
             }
+        } else {
+            /* the definition has to wait for a later pass, but it ends the sight of the
+               temporary symbols in front of it already now: every pass must name them alike */
+
+            SkipSymbolDefinition(pName);
         }
         as_tempres_free(&t);
     }
